@@ -68,8 +68,10 @@ def random_splitter(
 
 
 def normalize_shape(a: int | Sequence[int], ndim: int):
-    if isinstance(a, int):
-        _output_shape = (a,) * ndim
+    # NOTE: numpy integers must be converted to int, otherwise the arithmetics on the shape
+    # are done in the (possibly small or unsigned) numpy integer type.
+    if isinstance(a, (int, np.integer)):
+        _output_shape = (int(a),) * ndim
     else:
-        _output_shape = tuple(a)
+        _output_shape = tuple(int(s) if isinstance(s, np.integer) else s for s in a)
     return _output_shape
